@@ -1,5 +1,5 @@
-(* C11, replay side: the depth fix-up of utils/fstack.c for setjmp/longjmp. *)
-From Coq Require Import NArith List Bool Lia.
+(* C11, replay side: the depth fix-up of utils/fstack.c for setjmp/longjmp (after fix a7444cc). *)
+From Coq Require Import NArith ZArith List Bool Lia.
 Import ListNotations.
 Require Import UV.Gen.Consts UV.C11.Model.
 Local Open Scope N_scope.
@@ -7,78 +7,73 @@ Local Open Scope N_scope.
 Lemma nlist_eqb_refl : forall l, nlist_eqb l l = true.
 Proof. induction l as [|x l IH]; simpl; [reflexivity|]. unfold nlist_eqb in *. simpl. rewrite N.eqb_refl, IH. reflexivity. Qed.
 
-Lemma nlist_eqb_eq : forall a b, nlist_eqb a b = true -> a = b.
+(* the relation between replay's state and the ground truth *)
+Definition rel (p : rp) (g : gt) : Prop :=
+  lj_pending p = g_pend g /\ stack_count p = display_depth p /\ setjmp_depth p = setjmp_count p /\
+  (g_pend g = false -> display_depth p = Z.of_N (g_depth g)).
+
+Lemma replay_depth_gen : forall es p g l, rel p g -> gt_run g es = Some l -> rp_run p es = l.
 Proof.
-  unfold nlist_eqb. induction a as [|x a IH]; destruct b as [|y b]; simpl; intros H; try discriminate; [reflexivity|].
-  apply andb_prop in H. destruct H as [H1 H2]. apply N.eqb_eq in H1. subst. f_equal. auto.
-Qed.
-
-(* the relation between replay's state and the ground truth, given the jmp_buf of the latest setjmp *)
-Definition rel (last : option N) (p : rp) (g : gt) : Prop :=
-  display_depth p = g_depth g /\
-  match last with Some j => assoc j (g_jb g) = Some (setjmp_depth p) | None => True end.
-
-Lemma dec_pos : forall n, 0 < n -> dec n = n - 1.
-Proof. intros n H. unfold dec. destruct (0 <? n) eqn:E; [reflexivity|]. apply N.ltb_ge in E. lia. Qed.
-
-Lemma replay_depth_gen : forall es last p g l,
-  latest_only last es = true -> rel last p g -> gt_run g es = Some l -> rp_run p es = l.
-Proof.
-  induction es as [|e es IH]; intros last p g l Hlat [Hd Hj] Hrun;
-    cbn [gt_run gt_step rp_run rp_step latest_only] in *.
+  induction es as [|e es IH]; intros p g l [Hp [Hsd [Hsj Hd]]] Hrun; cbn [gt_run rp_run] in *.
   - inversion Hrun. reflexivity.
-  - destruct e as [k|].
-    + destruct k as [|jb|jb]; cbn [gt_run gt_step rp_run rp_step latest_only] in *.
+  - destruct e as [k|d].
+    + unfold gt_step in Hrun. destruct (g_pend g) eqn:Egp; [discriminate|]. specialize (Hd eq_refl).
+      destruct k as [|jb|jb]; unfold rp_step.
       * destruct (gt_run _ es) as [l'|] eqn:Er; [|discriminate]. inversion Hrun; subst l. clear Hrun.
-        f_equal; [exact Hd|]. eapply IH; [exact Hlat| |exact Er]. split; simpl; [lia|exact Hj].
+        f_equal; [rewrite Hd; apply N2Z.id|]. eapply IH; [|exact Er].
+        repeat split; cbn; intros; try lia; try assumption.
       * destruct (gt_run _ es) as [l'|] eqn:Er; [|discriminate]. inversion Hrun; subst l. clear Hrun.
-        f_equal; [exact Hd|]. eapply IH; [exact Hlat| |exact Er]. split; cbn [display_depth g_depth g_jb setjmp_depth assoc]; [lia|].
-        rewrite N.eqb_refl. rewrite Hd. reflexivity.
-      * destruct last as [j|]; [|discriminate Hlat]. apply andb_prop in Hlat. destruct Hlat as [Hjj Hlat].
-        apply N.eqb_eq in Hjj. subst j. rewrite Hj in Hrun.
+        f_equal; [rewrite Hd; apply N2Z.id|]. eapply IH; [|exact Er].
+        repeat split; cbn; intros; try lia; try assumption.
+      * destruct (assoc jb (g_jb g)) as [dj|] eqn:Ea; [|discriminate].
         destruct (gt_run _ es) as [l'|] eqn:Er; [|discriminate]. inversion Hrun; subst l. clear Hrun.
-        f_equal; [exact Hd|]. eapply IH; [exact Hlat| |exact Er]. split; simpl; [reflexivity|exact Hj].
-    + unfold gt_step in Hrun; unfold rp_step. destruct (0 <? g_depth g) eqn:Epos; [|discriminate Hrun]. apply N.ltb_lt in Epos.
+        f_equal; [rewrite Hd; apply N2Z.id|]. eapply IH; [|exact Er].
+        repeat split; cbn; intros; try lia; try assumption; try discriminate.
+    + unfold gt_step in Hrun. destruct ((0 <? g_depth g) && (d =? g_depth g - 1)) eqn:Eg; [|discriminate].
+      apply andb_prop in Eg. destruct Eg as [Epos Ed]. apply N.ltb_lt in Epos. apply N.eqb_eq in Ed.
       destruct (gt_run _ es) as [l'|] eqn:Er; [|discriminate]. inversion Hrun; subst l. clear Hrun.
-      f_equal; [rewrite Hd; apply dec_pos; exact Epos|].
-      eapply IH; [exact Hlat| |exact Er]. split; simpl; [rewrite Hd; apply dec_pos; exact Epos|exact Hj].
+      unfold rp_step. cbv zeta.
+      (* the value of display_depth after the resynchronisation and the decrement is d *)
+      assert (Hdd : (let diff := if lj_pending p then (stack_count p - 1 - Z.of_N d)%Z else 0%Z in
+                     let dd1 := if (diff =? 0)%Z then display_depth p else Z.max 0 (display_depth p - diff) in
+                     let sc1 := (stack_count p - diff)%Z in
+                     dd1 = Z.of_N d + 1 /\ sc1 = Z.of_N d + 1)%Z).
+      { cbv zeta. destruct (lj_pending p) eqn:Elp.
+        - destruct (stack_count p - 1 - Z.of_N d =? 0)%Z eqn:Ez; [apply Z.eqb_eq in Ez|apply Z.eqb_neq in Ez]; lia.
+        - assert (Hgp : g_pend g = false) by congruence. specialize (Hd Hgp). cbn. lia. }
+      cbv zeta in Hdd. destruct Hdd as [H1 H2]. rewrite H1, H2.
+      assert (E1 : (0 <? Z.of_N d + 1)%Z = true) by (apply Z.ltb_lt; lia). rewrite E1.
+      replace (Z.of_N d + 1 - 1)%Z with (Z.of_N d) by lia.
+      f_equal; [rewrite N2Z.id; lia|]. eapply IH; [|exact Er].
+      repeat split; cbn; intros; try lia; try assumption.
 Qed.
 
-(* for every record stream in which each longjmp goes to the jmp_buf of the most recent setjmp, replay
-   shows every record at its true depth *)
-Theorem replay_depth_latest : forall es l,
-  latest_only None es = true -> gt_run gt0 es = Some l -> rp_run rp0 es = l.
-Proof. intros es l H1 H2. eapply replay_depth_gen; [exact H1| |exact H2]. split; simpl; auto. Qed.
+(* for EVERY faithful record stream - any number of jmp_bufs, longjmp to any of them, nested to any
+   depth - replay shows every record at its true depth *)
+Theorem replay_depth_all_streams : forall es l, gt_run gt0 es = Some l -> rp_run rp0 es = l.
+Proof. intros es l H. eapply replay_depth_gen; [|exact H]. repeat split; cbn; auto. Qed.
 
-Corollary replay_checker_accepts : forall es,
-  latest_only None es = true -> gt_run gt0 es <> None -> ok_replay es (rp_run rp0 es) = true.
+Corollary replay_checker_accepts : forall es, gt_run gt0 es <> None -> ok_replay es (rp_run rp0 es) = true.
 Proof.
-  intros es H1 H2. unfold ok_replay. destruct (gt_run gt0 es) as [l|] eqn:E; [|congruence].
-  rewrite (replay_depth_latest es l H1 E). apply nlist_eqb_refl.
+  intros es H. unfold ok_replay. destruct (gt_run gt0 es) as [l|] eqn:E; [|congruence].
+  rewrite (replay_depth_all_streams es l E). apply nlist_eqb_refl.
 Qed.
 
-(* the guard is necessary: main(){ a(){ setjmp(jb1); b(){ setjmp(jb2); c(){ longjmp(jb1) }}} ... } -
-   the calls made after the jump are shown one level too deep (witness reproduced with the real
-   `uftrace replay`, see props/c11.py E2E_WITNESS_OLD_JMPBUF) *)
+(* non-vacuity, and the regression witness of the defect repaired by a7444cc:
+   main(){ a(){ setjmp(jb1); b(){ setjmp(jb2); c(){ longjmp(jb1) }}} ... } *)
 Definition witness_old_jmpbuf : list sev :=
   [SEntry SNormal;                  (* main   depth 0 *)
    SEntry SNormal;                  (* a      depth 1 *)
-   SEntry (SSetjmp 1); SExit;       (* setjmp(jb1) depth 2 *)
+   SEntry (SSetjmp 1); SExit 2;     (* setjmp(jb1) depth 2 *)
    SEntry SNormal;                  (* b      depth 2 *)
-   SEntry (SSetjmp 2); SExit;       (* setjmp(jb2) depth 3 *)
+   SEntry (SSetjmp 2); SExit 3;     (* setjmp(jb2) depth 3 *)
    SEntry SNormal;                  (* c      depth 3 *)
-   SEntry (SLongjmp 1); SExit;      (* longjmp(jb1): back in a *)
-   SEntry SNormal; SExit;           (* leaf called by a: true depth 2 *)
-   SExit; SExit].                   (* a, main *)
+   SEntry (SLongjmp 1); SExit 2;    (* longjmp(jb1): back in a *)
+   SEntry SNormal; SExit 2;         (* leaf called by a: true depth 2 *)
+   SExit 1; SExit 0].               (* a, main *)
 
-Lemma replay_depth_refuted_witness :
+Example replay_older_jmpbuf_now_right :
   gt_run gt0 witness_old_jmpbuf = Some [0; 1; 2; 2; 2; 3; 3; 3; 4; 2; 2; 2; 1; 0] /\
-  rp_run rp0 witness_old_jmpbuf = [0; 1; 2; 2; 2; 3; 3; 3; 4; 3; 3; 3; 2; 1] /\
-  ok_replay witness_old_jmpbuf (rp_run rp0 witness_old_jmpbuf) = false.
-Proof. vm_compute. auto. Qed.
-
-Example replay_nonvacuous :
-  latest_only None [SEntry SNormal; SEntry (SSetjmp 1); SExit; SEntry SNormal; SEntry (SLongjmp 1); SExit; SExit] = true
-  /\ gt_run gt0 [SEntry SNormal; SEntry (SSetjmp 1); SExit; SEntry SNormal; SEntry (SLongjmp 1); SExit; SExit]
-     = Some [0; 1; 1; 1; 2; 1; 0].
+  rp_run rp0 witness_old_jmpbuf = [0; 1; 2; 2; 2; 3; 3; 3; 4; 2; 2; 2; 1; 0] /\
+  ok_replay witness_old_jmpbuf (rp_run rp0 witness_old_jmpbuf) = true.
 Proof. vm_compute. auto. Qed.
